@@ -602,6 +602,7 @@ func runCheck(id, tier, work string) int {
 	excluded := map[string]int{}
 	knownHits := map[string]int{}
 	crashNotes := map[string]int{}
+	sigCounts := map[string]int{}
 	var crashCases []core.ViolationRec
 	var first, minh []core.Sample
 	restarts := 0
@@ -660,6 +661,9 @@ func runCheck(id, tier, work string) int {
 			for k, v := range s.CrashNotes {
 				crashNotes[k] += v
 			}
+			for k, v := range s.SigCounts {
+				sigCounts[k] += v
+			}
 			if len(first) < 3 {
 				first = append(first, s.First...)
 			}
@@ -702,7 +706,7 @@ func runCheck(id, tier, work string) int {
 		p := filepath.Join(verifDir, "replay", fmt.Sprintf("%s-%016x.json", id, core.Hash64([]byte(v.Sig+string(v.Case)))))
 		os.WriteFile(p, b, 0o644)
 		vioLines = append(vioLines, fmt.Sprintf("VIOLATION property=%s replay=%s", id, p))
-		fmt.Printf("violation signature: %s\n  %s\n", v.Sig, strings.ReplaceAll(tail(firstLines(v.Msg, 6), 800), "\n", "\n  "))
+		fmt.Printf("violation signature: %s (x%d)\n  %s\n", v.Sig, sigCounts[v.Sig], strings.ReplaceAll(tail(firstLines(v.Msg, 6), 800), "\n", "\n  "))
 	}
 
 	// 5. evidence
